@@ -128,4 +128,79 @@ theorem extract_exact (pat : String) (g : String → Bool) (stem : String) (ms :
     rw [filterMap_eq_filter_map _ (Spec.selected pat g) (fun m => (m.name, m.data)) ms hpt]
     simp [List.map_map, Function.comp_def]
 
+/-! ### landing -/
+
+theorem landGo_sub (l : List (String × List UInt8)) : ∀ seen, ∀ x ∈ landGo seen l, x ∈ l ∧ creatable x.1 = true := by
+  induction l with
+  | nil => intro seen x hx; cases hx
+  | cons a t ih =>
+    intro seen x hx
+    obtain ⟨n, d⟩ := a
+    simp only [landGo] at hx
+    split at hx
+    · rename_i hc
+      rcases List.mem_cons.mp hx with rfl | h
+      · simp only [Bool.and_eq_true] at hc
+        exact ⟨List.mem_cons_self, hc.1⟩
+      · obtain ⟨h1, h2⟩ := ih _ x h
+        exact ⟨List.mem_cons_of_mem _ h1, h2⟩
+    · obtain ⟨h1, h2⟩ := ih _ x hx
+      exact ⟨List.mem_cons_of_mem _ h1, h2⟩
+
+def pathOf (x : String × List UInt8) : List String := resolve [] (comps x.1)
+
+theorem landGo_paths (l : List (String × List UInt8)) : ∀ seen,
+    ((landGo seen l).map pathOf).Nodup ∧ ∀ x ∈ landGo seen l, pathOf x ∉ seen := by
+  induction l with
+  | nil => intro seen; exact ⟨List.nodup_nil, by intro x hx; cases hx⟩
+  | cons a t ih =>
+    intro seen
+    obtain ⟨n, d⟩ := a
+    simp only [landGo]
+    split
+    · rename_i hc
+      simp only [Bool.and_eq_true, Bool.not_eq_true', List.contains_eq_mem, decide_eq_false_iff_not] at hc
+      obtain ⟨i1, i2⟩ := ih (resolve [] (comps n) :: seen)
+      constructor
+      · simp only [List.map_cons, List.nodup_cons]
+        refine ⟨?_, i1⟩
+        intro hmem
+        simp only [List.mem_map] at hmem
+        obtain ⟨y, hy, hyp⟩ := hmem
+        exact i2 y hy (by rw [hyp]; exact List.mem_cons_self)
+      · intro x hx
+        rcases List.mem_cons.mp hx with rfl | h
+        · exact hc.2
+        · intro hs; exact i2 x h (List.mem_cons_of_mem _ hs)
+    · exact ih seen
+
+/-- everything that lands was handed in, can be created, and no two landed files denote the same path: no member's content
+    is overwritten by another's -/
+theorem land_sound (l : List (String × List UInt8)) :
+    (∀ x ∈ land l, x ∈ l ∧ creatable x.1 = true) ∧ ((land l).map pathOf).Nodup :=
+  ⟨landGo_sub l [], (landGo_paths l []).1⟩
+
+theorem landGo_id (l : List (String × List UInt8)) : ∀ seen, (∀ x ∈ l, creatable x.1 = true) → (l.map pathOf).Nodup →
+    (∀ x ∈ l, pathOf x ∉ seen) → landGo seen l = l := by
+  induction l with
+  | nil => intro _ _ _ _; rfl
+  | cons a t ih =>
+    intro seen hc hn hs
+    obtain ⟨n, d⟩ := a
+    simp only [List.map_cons, List.nodup_cons] at hn
+    have h1 : creatable n = true := hc (n, d) List.mem_cons_self
+    have h2 : ¬ resolve [] (comps n) ∈ seen := hs (n, d) List.mem_cons_self
+    simp only [landGo, h1, Bool.true_and, List.contains_eq_mem, h2, decide_false, Bool.not_false, if_true]
+    rw [ih _ (fun x hx => hc x (List.mem_cons_of_mem _ hx)) hn.2]
+    intro x hx hmem
+    rcases List.mem_cons.mp hmem with h | h
+    · apply hn.1
+      simp only [List.mem_map]
+      exact ⟨x, hx, h⟩
+    · exact hs x (List.mem_cons_of_mem _ hx) h
+
+/-- when every selected name can be created and no two of them denote the same path, everything lands -/
+theorem land_id (l : List (String × List UInt8)) (hc : ∀ x ∈ l, creatable x.1 = true) (hn : (l.map pathOf).Nodup) : land l = l :=
+  landGo_id l [] hc hn (by intro x _ h; cases h)
+
 end Zipm
